@@ -91,6 +91,10 @@ def run(ctx):
             tb = p.sec_trailer.pack()
             cases.append((f"sectrailer_unpack {hx(tb)}", call(lambda: _pdu.SecTrailer.unpack(tb), rpcfmt.trailer)))
 
+    # ---- edited PDUs: pairs of the same PDU type, the first packed and then taking over the second's fields ------------
+    import gen
+    for pt in [0, 2, 3, 11, 12, 13, 14, 15]:
+        gen.edit_consistency(ctx, [(rpcfmt.rand_pdu(rng, pt), rpcfmt.rand_pdu(rng, pt)) for _ in range(3)], pack=lambda o: o.pack(), label="pdu")
     # ---- verification trailers -------------------------------------------------------------------------------
     for _ in range(N):
         cmds = []
